@@ -98,7 +98,8 @@ func (c *Ctx) bindParamsEntry(env *SpecEnv) {
 // VerifyFunc generates the obligations of one function against its contract.
 func VerifyFunc(prog *Program, pk *Pkg, fc *FuncContract, tier string) (rep *FuncReport) {
 	rep = &FuncReport{Name: pk.rel + "." + fc.Key, Pkg: pk.rel, Kind: "func", Mode: fc.Mode, Contract: fc, PkgRef: pk}
-	fd := pk.funcs[fc.Key]
+	// "Func#label" is an additional contract of Func (e.g. a bounded stand-in next to the unbounded contract callers use)
+	fd := pk.funcs[strings.SplitN(fc.Key, "#", 2)[0]]
 	if fd == nil || fd.Body == nil {
 		rep.Err = fmt.Sprintf("contract target %s.%s not found in the source tree", pk.rel, fc.Key)
 		return rep
@@ -188,7 +189,7 @@ func VerifyFunc(prog *Program, pk *Pkg, fc *FuncContract, tier string) (rep *Fun
 		}
 	}
 	st.assume(c, And(facts...))
-	c.fr = &frame{fc: fc, pkg: pk, sig: sig}
+	c.fr = &frame{fc: fc, pkg: pk, sig: sig, loopIdx: numberLoops(fd.Body)}
 	c.bindParams(st, fd.Type, fd.Recv, recv, args)
 	c.declareResults(st, fd.Type, sig)
 	c.initDefers(st, fd.Body)
@@ -201,7 +202,8 @@ func VerifyFunc(prog *Program, pk *Pkg, fc *FuncContract, tier string) (rep *Fun
 	c.bindParamsEntry(env)
 	for _, cl := range fc.Requires {
 		t := env.boolTerm(cl.Expr)
-		st.assume(c, And(append(env.facts, t)...))
+		st.assume(c, And(env.facts...))
+		st.assumeSoft(c, t)
 		env.facts = nil
 	}
 	entry.pc = st.pc
@@ -268,7 +270,9 @@ func (c *Ctx) checkEnsures(end, entry *State, fc *FuncContract, sig *types.Signa
 		if cl.Thorough && c.tier != "thorough" {
 			continue
 		}
+		c.goalMode++
 		t := env.boolTerm(cl.Expr)
+		c.goalMode--
 		goal := Implies(And(env.facts...), t)
 		env.facts = nil
 		o := c.oblige(end, "ensures", cl.Label, fd.Pos(), goal, cl.Text)
@@ -406,7 +410,10 @@ func VerifyLemma(prog *Program, pk *Pkg, lm *Lemma, tier string) (rep *FuncRepor
 	}
 	c.cover(st, "requires-satisfiable", token.NoPos)
 	for _, cl := range lm.Ensures {
-		o := c.oblige(st, "lemma", cl.Label, token.NoPos, env.boolTerm(cl.Expr), cl.Text)
+		c.goalMode++
+		lt := env.boolTerm(cl.Expr)
+		c.goalMode--
+		o := c.oblige(st, "lemma", cl.Label, token.NoPos, lt, cl.Text)
 		if o != nil {
 			o.Backends = lm.Backends
 			o.Timeout = lm.Timeout
